@@ -50,7 +50,19 @@ def run_case(rs, ctx):
         gen.gen_ops(rs, cfg, sh, int(rs.integers(0, 4)), ["partial_fit", "add_arm", "remove_arm", "warm_start"])
     queries = gen.gen_ops(rs, cfg, sh, int(rs.integers(1, 7)), ["predict", "predict_expectations"],
                           sizes=(1, 2, 3, 5, 8) if rs.integers(3) else (1, 3, 40, 130))
-    cont = gen.gen_continuation(rs, cfg, sh)
+    pre = []
+    if rs.integers(3) == 0:
+        # the continuation starts with a full refit whose data omits an arm, queried straight away: whatever the queries left
+        # behind for that arm is not overwritten by the training of the refit
+        for _ in range(12):
+            sh2 = copy.deepcopy(sh)
+            f = gen.gen_ops(rs, cfg, sh2, 1, ["fit"], train_rows=(4, 12))
+            if f and any(a not in f[0]["d"] for a in sh2.arms):
+                sh = sh2
+                pre = f + gen.gen_ops(rs, cfg, sh, 2, ["predict_expectations", "predict"])
+                ctx.count("continuations_starting_with_a_refit_that_omits_an_arm")
+                break
+    cont = pre + gen.gen_continuation(rs, cfg, sh)
     for o in cont + queries:
         if o["op"] in ("predict", "predict_expectations") and o.get("X") is not None and gen.is_ctx(cfg) and rs.integers(3) == 0:
             o["X"][-1] = [50.0 + v for v in o["X"][-1]]  # a far-away row: empty neighbourhood for Radius, rare bucket for LSH
